@@ -19,6 +19,12 @@ CHECKS = {
         text="Every entry of the five tables and of FK/CK is compared with the standard's formula (exhaustive over the tables, so a wrong entry is found even if no vector reaches it); Enc/Dec are compared with TLC's values for the standard example, every single-bit key and block, byte fills and pseudo-random pairs; all call sequences of depth 3 (4 thorough) over Encrypt/Decrypt x 3 blocks x aliasing on one object are replayed and each result validated by TLC; key lengths 0..64.",
         note="Trusts TLC + Bitwise, the GM/T 0002 example anchoring SM4.tla, and that VerifTables returns the arrays cryptBlock reads. Correctness for all 2^256 (key, block) pairs follows only insofar as the round structure is the standard's and the tables are right; it is decided on the enumerated vectors.",
         ref="DESIGN.md section 5 C05"),
+    "C11": dict(
+        level="model_checking",
+        technique="executable TLA+ definitions of PKCS#7 + ECB/CBC/CFB/OFB over SM4.tla evaluated by TLC as oracle (ModesTab); helpers' package-level IV modelled as state (Modes.tla) with TLC-simulated SetIV/encrypt/decrypt behaviours replayed and validated by TLC (ModesTrace); caller-memory canaries",
+        text="For every length 0..64 x 4 modes x default/set IV (plus padding look-alike plaintexts, plus lengths 65..1024: all in thorough, seeded sample in quick) TLC computes the standard ciphertext; the real helper must return it with and without spare capacity behind the input, leave input, key and spare bytes untouched, and decrypt the specification's ciphertext to the plaintext; SetIV histories are validated by a TLC trace spec that tracks which IV is current.",
+        note="Trusts TLC + Bitwise and SM4.tla (GM/T 0002 example); one key; plaintext contents from three deterministic families.",
+        ref="DESIGN.md section 5 C11"),
     "C19": dict(
         level="model_checking",
         technique="TLA+ spec PadStream + refinement PadStreamImpl checked by TLC; TLC-generated environments replayed on the real objects; recorded traces validated by TLC (PadStreamTrace)",
